@@ -1,6 +1,7 @@
 import Mkdb.Proofs.Unchanged
 import Mkdb.Proofs.SpecRefine
 import Mkdb.Proofs.SpecRefineB
+import Mkdb.Proofs.BaseCase3
 /-!
 # C14 — a statement that returns an error changes nothing
 
@@ -233,5 +234,25 @@ theorem C14_update_kth_row_plain_model (db : Engine.DB) (pt sch : Levels) (tbls 
       Abs db'.store pt sch (setTable tbls table t')
         (sdb.map (updRows table fun rs => rewriteFirst st.cols sets pre.length (rs.zip sel))) :=
   evalUpdate_kth_refused_spec db pt sch tbls sdb h table sets w hnocol hvalid st sel pre bad post hfind hsel hset hsplit hpre hbad
+
+end Mkdb.Store
+
+namespace Mkdb.Store
+open Mkdb.Tree Mkdb.Page Mkdb.Tuple Mkdb.Generated
+
+/-- **C14.witnesses_on_a_real_database** (non-vacuity on a store the model itself creates): on the
+database `CREATE DATABASE` leaves (`createDB [] {}` computed, reopened), a CREATE TABLE whose name makes
+a catalog row too large, a CREATE TABLE with such a column name, and an INSERT into a table that does
+not exist are refused and leave a well-filed store with the same data.  (The earlier witness store
+`emptyCatalog` was hand-written; the base-case work showed that it satisfies `Filed` but is not a
+database at all - `emptyCatalog_not_cat`: no catalog invariant holds of it.) -/
+theorem C14_witnesses_on_a_real_database :
+    (∃ s', createTable [] longName [] true (reopen newStore) = .err .rowTooLarge s' ∧
+      Filed s' ∧ SameData (reopen newStore) s') ∧
+    (∃ s', createTable [⟨"a", .int, 0⟩, ⟨longColumn, .int, 0⟩] [116] [] true (reopen newStore) = .err .rowTooLarge s' ∧
+      Filed s' ∧ SameData (reopen newStore) s') ∧
+    (∃ s', insert [116] [] [] (reopen newStore) = .err .tableNotExist s' ∧
+      Filed s' ∧ SameData (reopen newStore) s') :=
+  newStore_examples
 
 end Mkdb.Store
